@@ -12,14 +12,15 @@
 #include <map>
 #include <thread>
 #ifdef WITH_PROT_ORACLE
+#define PROTLOG_DEFINE_WRAPPERS
 #include "harness/protlog.hpp"
 #endif
 
 using Bytes = std::vector<uint8_t>;
 using Digest = std::array<uint8_t, 32>;
 
-enum Op { AllocCache, InitCache, ReleaseCache, AllocDataset, InitDataset, ReleaseDataset, CreateVm, DestroyVm, SetCache, SetDataset, SetV2, ClearV2, Hash, BatchFirst, BatchNext, BatchLast, Churn, ReleaseBoundCache, AllocInitCacheFor, SetCacheLast, NOPS };
-static const char* opNames[NOPS] = {"AllocCache", "InitCache", "ReleaseCache", "AllocDataset", "InitDataset", "ReleaseDataset", "CreateVm", "DestroyVm", "SetCache", "SetDataset", "SetV2", "ClearV2", "Hash", "BatchFirst", "BatchNext", "BatchLast", "Churn", "ReleaseBoundCache", "AllocInitCacheFor", "SetCacheLast"};
+enum Op { AllocCache, InitCache, ReleaseCache, AllocDataset, InitDataset, ReleaseDataset, CreateVm, DestroyVm, SetCache, SetDataset, SetV2, ClearV2, Hash, BatchFirst, BatchNext, BatchLast, Churn, ReleaseBoundCache, AllocInitCacheFor, SetCacheLast, BatchRun, NOPS };
+static const char* opNames[NOPS] = {"AllocCache", "InitCache", "ReleaseCache", "AllocDataset", "InitDataset", "ReleaseDataset", "CreateVm", "DestroyVm", "SetCache", "SetDataset", "SetV2", "ClearV2", "Hash", "BatchFirst", "BatchNext", "BatchLast", "Churn", "ReleaseBoundCache", "AllocInitCacheFor", "SetCacheLast", "BatchRun"};
 struct Cmd { int op, a, b, c; };
 
 struct HCase {
@@ -48,11 +49,17 @@ struct Oracle {
 		auto k = std::make_pair(key, std::make_pair(input, v2));
 		auto it = memo.find(k); if (it != memo.end()) return it->second;
 		bool act = garbage::st().active; garbage::st().active = false;
+#ifdef WITH_PROT_ORACLE
+		protlog::paused() = true;    // the oracle's own (non-secure) VM is not part of the history under test
+#endif
 		randomx_cache*& c = caches[key];
 		if (!c) { if (caches.size() > 6) { for (auto& kv : caches) if (kv.second && kv.first != key) { randomx_release_cache(kv.second); kv.second = nullptr; } } c = randomx_alloc_cache(RANDOMX_FLAG_JIT); randomx_init_cache(c, key.data(), key.size()); }
 		randomx_vm* vm = randomx_create_vm((randomx_flags)(RANDOMX_FLAG_JIT | (v2 ? RANDOMX_FLAG_V2 : 0)), c, nullptr);
 		Digest d; randomx_calculate_hash(vm, input.data(), input.size(), d.data());
 		randomx_destroy_vm(vm);
+#ifdef WITH_PROT_ORACLE
+		protlog::paused() = false;
+#endif
 		garbage::st().active = act;
 		memo[k] = d; return d;
 	}
@@ -136,6 +143,13 @@ static std::string body(const HCase& c) {
 		case BatchFirst: { int v = pick(live(vms), k.a); if (v < 0 || vms[v].batchInput >= 0 || !hashable(vms[v])) { done = false; break; } int in = k.b % (int)c.inputs.size(); API([&] { randomx_calculate_hash_first(vms[v].p, c.inputs[in].data(), c.inputs[in].size()); }); vms[v].batchInput = in; vms[v].hist += ">first"; break; }
 		case BatchNext: { int v = -1; for (int i : live(vms)) if (vms[i].batchInput >= 0) { v = i; if ((k.a & 1) == 0) break; } if (v < 0) { done = false; break; } int in = k.b % (int)c.inputs.size(); Digest d; API([&] { randomx_calculate_hash_next(vms[v].p, c.inputs[in].data(), c.inputs[in].size(), d.data()); }); check(vms[v], vms[v].batchInput, d, "randomx_calculate_hash_next"); vms[v].batchInput = in; vms[v].hist += ">next"; lab["batch-next"]++; break; }
 		case BatchLast: { int v = -1; for (int i : live(vms)) if (vms[i].batchInput >= 0) { v = i; if ((k.a & 1) == 0) break; } if (v < 0) { done = false; break; } Digest d; API([&] { randomx_calculate_hash_last(vms[v].p, d.data()); }); check(vms[v], vms[v].batchInput, d, "randomx_calculate_hash_last"); vms[v].batchInput = -1; vms[v].hist += ">last"; lab["batch-last"]++; break; }
+		case BatchRun: {   // a whole pipeline first, next x n, last - the way the batch API is meant to be used
+			int v = pick(live(vms), k.a); if (v < 0 || vms[v].batchInput >= 0 || !hashable(vms[v])) { done = false; break; }
+			int n = 2 + (k.c & 3); int in = k.b % (int)c.inputs.size();
+			API([&] { randomx_calculate_hash_first(vms[v].p, c.inputs[in].data(), c.inputs[in].size()); });
+			for (int j = 1; j < n && err.empty(); ++j) { int nx = (k.b + j * 5) % (int)c.inputs.size(); Digest d; API([&] { randomx_calculate_hash_next(vms[v].p, c.inputs[nx].data(), c.inputs[nx].size(), d.data()); }); check(vms[v], in, d, "randomx_calculate_hash_next"); in = nx; lab["batch-next"]++; }
+			if (err.empty()) { Digest d; API([&] { randomx_calculate_hash_last(vms[v].p, d.data()); }); check(vms[v], in, d, "randomx_calculate_hash_last"); lab["batch-last"]++; }
+			lab["batch-pipelines>=3-inputs"] += n >= 3; vms[v].hist += ">batch"; break; }
 		case Churn: { garbage::st().active = true; std::vector<void*> ps; for (int i = 0; i < 1 + k.a % 40; ++i) { void* p = nullptr; if (posix_memalign(&p, 64, 16 + (size_t)(k.b * (i + 1)) % 40000) == 0) ps.push_back(p); } for (size_t i = 0; i < ps.size(); i += 2) free(ps[i]); garbage::st().active = false; break; }
 		}
 		if (done) ++executed; else { ++skipped; lab[std::string("skip:") + opNames[k.op]]++; }
@@ -153,6 +167,10 @@ static std::string body(const HCase& c) {
 	garbage::reset();
 	if (!err.empty() || vh::st().replaying) return err;
 	for (auto& kv : lab) vh::label(kv.first, kv.second);
+#ifdef WITH_PROT_ORACLE
+	{ auto& P = protlog::st(); vh::st().labels["max:library-mmaps"] = P.mmaps; vh::st().labels["max:library-mprotects"] = P.mprotects; vh::st().labels["max:rw-phases"] = P.rwPhases; vh::st().labels["max:rx-phases"] = P.rxPhases; }
+	{ bool secureRebind = false; for (auto& v : vms) if (v.hist.find(">set_cache") != std::string::npos && v.hist.rfind(">hash") > v.hist.find(">set_cache") && v.hist.rfind(">hash") != std::string::npos) secureRebind = true; if (secureRebind) vh::label("secure-vm-rebound-then-hashed"); }
+#endif
 	vh::label("commands-executed", executed); vh::label("commands-skipped(precondition)", skipped); vh::label("hashes-compared", hashes);
 	if (datasetInits) vh::label("histories-with-dataset");
 	bool nt = hashes > 0 && (lab.count("hash-after-previous-hash-on-same-vm") || lab.count("re-key") || lab.count("rebind-other-cache") || lab.count("rebind-same-key-different-object") || lab.count("rebind-same-key-after-release") || lab.count("v1<->v2-switch-after-hash") || lab.count("batch-next"));
@@ -165,9 +183,9 @@ static rc::Gen<HCase> genHistory(int secureOnly, int datasetPct) {
 	// weights: hashing and binding operations dominate; object churn is frequent enough for address reuse
 	auto cmdGen = gen::apply([](int w, int a, int b, int c) {
 		static const int table[] = {AllocCache, InitCache, InitCache, InitCache, ReleaseCache, AllocDataset, InitDataset, ReleaseDataset, CreateVm, CreateVm, CreateVm, DestroyVm, SetCache, SetCache, SetCache, SetDataset, SetV2, ClearV2,
-			Hash, Hash, Hash, Hash, Hash, Hash, Hash, BatchFirst, BatchNext, BatchNext, BatchLast, Churn, ReleaseBoundCache, ReleaseBoundCache, AllocInitCacheFor, AllocInitCacheFor, AllocInitCacheFor, SetCacheLast, SetCacheLast, SetCacheLast, Hash, Hash};
+			Hash, Hash, Hash, Hash, Hash, Hash, Hash, BatchFirst, BatchNext, BatchNext, BatchLast, Churn, ReleaseBoundCache, ReleaseBoundCache, AllocInitCacheFor, AllocInitCacheFor, AllocInitCacheFor, SetCacheLast, SetCacheLast, SetCacheLast, Hash, BatchRun, BatchRun};
 		return Cmd{table[w % (sizeof table / sizeof table[0])], a, b, c};
-	}, gen::inRange(0, 40), gen::inRange(0, 64), gen::inRange(0, 64), gen::inRange(0, 4));
+	}, gen::inRange(0, 41), gen::inRange(0, 64), gen::inRange(0, 64), gen::inRange(0, 4));
 	return gen::resize(100, gen::apply([=](std::vector<Cmd> cmds, Bytes k1, Bytes k2, std::vector<Bytes> inputs, int pattern, int reuse, int dsRoll) {
 		HCase c; c.secureOnly = secureOnly;
 		c.keys = {k1, Bytes(), k2}; if (k2.size() <= 60) { c.keys[2].resize(61 + k2.size(), 0x5a); }
